@@ -571,6 +571,19 @@ struct oracle
 };
 
 // ---------------------------------------------------------------- running
+// The pool of operands only ever COPY-CONSTRUCTS individuals (never assigns one over another): the
+// bookkeeping of the harness must not run library code (gene / small_vector assignment) that could
+// itself damage an operand; what an operator receives is what an earlier operator returned.
+template<class T> struct pool_t
+{
+  std::vector<std::unique_ptr<const T>> v;
+  std::size_t size() const { return v.size(); }
+  bool empty() const { return v.empty(); }
+  const T &operator[](std::size_t k) const { return *v[k]; }
+  void push_back(const T &x) { v.push_back(std::make_unique<const T>(x)); }
+  void set(std::size_t k, const T &x) { v[k] = std::make_unique<const T>(x); }
+};
+
 struct runner
 {
   unsigned scenario = 0, opn = 0;
@@ -862,11 +875,11 @@ struct runner
     problem &p = si.prob;
     p.env.mep.code_length = len;
     p.env.mep.patch_length = pl;
-    std::vector<i_mep> pool;
+    pool_t<i_mep> pool;
     unsigned flav = unsigned(rng.below(4));
 
     auto add = [&](const i_mep &x)
-    { if (!last_ok) return; if (pool.size() < 6) pool.push_back(x); else pool[rng.below(pool.size())] = x; };
+    { if (!last_ok) return; if (pool.size() < 6) pool.push_back(x); else pool.set(rng.below(pool.size()), x); };
 
     const unsigned n0 = 2 + unsigned(rng.below(3));
     for (unsigned k = 0; k < n0; ++k)
@@ -962,7 +975,7 @@ struct runner
     problem &p = si.prob;
     p.env.mep.code_length = len;
     p.env.mep.patch_length = pl;
-    std::vector<team_t> pool;
+    pool_t<team_t> pool;
     unsigned flav = unsigned(rng.below(4));
     for (unsigned j = 0; j < 2; ++j)
     {
@@ -998,7 +1011,7 @@ struct runner
         t = op_tcrossover(id, team_t(va), team_t(vb));
       }
       if (!last_ok) break;
-      if (pool.size() < 4) pool.push_back(t); else pool[rng.below(pool.size())] = t;
+      if (pool.size() < 4) pool.push_back(t); else pool.set(rng.below(pool.size()), t);
     }
   }
 
